@@ -1608,3 +1608,160 @@ def check_C09(work, tier, seed):
 
 
 CHECKS.update({"C09": check_C09})
+
+
+# ------------------------------------------------------------------ C19 Arduino port
+
+def build_arduino(work):
+    root = work.sub("ard")
+    copy_tree(root)
+    src = os.path.join(root, "arduino", "libraries", "Skinny")
+    exe = os.path.join(root, "drv_ard")
+    cpps = [os.path.join(src, f) for f in sorted(os.listdir(src)) if f.endswith(".cpp")]
+    sh(["g++", "-O2", "-g", "-I" + src, os.path.join(HARNESS, "drv_ard.cpp")] + cpps + ["-o", exe])
+    b = Build(root, "arduino", {})
+    b.drv = exe
+    return b
+
+
+def gen_c19(seed, tier):
+    """scenarios restricted to what the Arduino API can express: exact primary key
+    lengths, full-length (or NULL) tweaks, 16-byte IVs, Mantis with 8 rounds"""
+    sc = Sc(seed, placements=False)
+    thorough = tier == "thorough"
+    for kind in ("s128", "s64"):
+        bs = BS[kind]
+        for z in (1, 2, 3):
+            key, pt, ct = [bytes.fromhex(x) for x in SKINNY_VECTORS[(kind, z)]]
+            sc.reset("c19-vec-%s-%d" % (kind, z))
+            sc.ks_set_key(kind, 0, key)
+            sc.ks_crypt(True, kind, 0, pt)
+            sc.ks_crypt(False, kind, 0, ct)
+            sc.reset("c19-rand-%s-%d" % (kind, z))
+            for i in range(40 if thorough else 8):
+                o = sc.rng.randrange(8)
+                sc.ks_set_key(kind, o, sc.rb(z * bs) if i % 5 else walking(z * bs, sc.rng.randrange(z * bs), 1 << sc.rng.randrange(8)))
+                for j in range(2):
+                    blk = sc.rb(bs)
+                    sc.ks_crypt(True, kind, o, blk)
+                    sc.ks_crypt(False, kind, o, blk)
+            # universally invalid lengths are rejected and change nothing
+            sc.ks_set_key(kind, 0, sc.rb(z * bs))
+            for bad in (0, bs - 1, 3 * bs + 1, 4 * bs):
+                sc.ks_set_key(kind, 0, sc.rb(bad) if bad else b"", bad)
+            sc.ks_crypt(True, kind, 0, sc.rb(bs))
+            sc.op("ard_clear", k=kind, o=0, fam="ks")
+        for z in (1, 2):
+            sc.reset("c19-tweak-%s-%d" % (kind, z))
+            sc.ks_set_tweaked_key(kind, 0, sc.rb(z * bs))
+            blk = sc.rb(bs)
+            sc.ks_crypt(True, kind, 0, blk, t=1)          # fresh: zero tweak
+            for i in range(30 if thorough else 10):
+                r = sc.rng.random()
+                if r < 0.15:
+                    sc.ks_set_tweak(kind, 0, None, bs)      # NULL = all-zero
+                elif r < 0.25:
+                    sc.ks_set_tweaked_key(kind, 0, sc.rb(z * bs))
+                elif r < 0.32:
+                    sc.ks_set_tweak(kind, 0, sc.rb(bs + 1), bs + 1)    # invalid
+                    sc.ks_set_tweak(kind, 0, sc.rb(bs), 0)
+                else:
+                    sc.ks_set_tweak(kind, 0, sc.rb(bs))
+                if sc.rng.random() < 0.5:
+                    sc.ks_crypt(sc.rng.random() < 0.5, kind, 0, sc.rb(bs), t=1)
+            for bad in (0, bs - 1, 2 * bs + 1):
+                sc.ks_set_tweaked_key(kind, 0, sc.rb(bad) if bad else b"", bad)
+            sc.ks_crypt(True, kind, 0, blk, t=1)
+            sc.op("ard_clear", k=kind, o=0, fam="tks")
+    # Mantis8
+    pt, ct = [bytes.fromhex(x) for x in MANTIS_VECTORS[8]]
+    sc.reset("c19-mantis-vec")
+    sc.mk_set_key(0, MANTIS_KEY, 8, 1)
+    sc.mk_crypt(0, pt)
+    sc.mk_set_tweak(0, MANTIS_TWEAK)
+    sc.mk_crypt(0, pt)
+    sc.mk_swap(0)
+    sc.mk_crypt(0, ct)
+    for i in range(8 if thorough else 3):
+        sc.reset("c19-mantis-%d" % i)
+        sc.mk_set_key(0, sc.rb(16), 8, sc.rng.randrange(2))
+        for j in range(12):
+            r = sc.rng.random()
+            if r < 0.3:
+                sc.mk_swap(0)
+            elif r < 0.55:
+                sc.mk_set_tweak(0, sc.rb(8) if sc.rng.random() < 0.8 else None)
+            elif r < 0.65:
+                sc.mk_set_key(0, sc.rb(16), 8, sc.rng.randrange(2))
+            elif r < 0.72:
+                sc.mk_set_key(0, sc.rb(15), 8, 1)
+                sc.mk_set_tweak(0, sc.rb(7), 7)
+            sc.mk_crypt(0, sc.rb(8))
+            sc.lines[-1] += " viadec=%d" % sc.rng.randrange(2)
+        sc.op("ard_clear", o=0, fam="mk")
+    # CTR<T>: set key, IV, arbitrary splits; rekey + new IV; tweak change + new IV
+    for z, tw in ((1, 0), (2, 0), (3, 0), (1, 1), (2, 1)):
+        sc.reset("c19-ctr-%d-%d" % (z, tw))
+        sc.ctr_init("s128", 0)
+        for rep in range(3 if thorough else 2):
+            key = sc.rb(z * 16)
+            if tw:
+                sc.ctr_set_tweaked_key("s128", 0, key)
+                if rep:
+                    sc.ctr_set_tweak("s128", 0, sc.rb(16) if rep == 1 else None, 16)
+            else:
+                sc.ctr_set_key("s128", 0, key)
+            for c in (sc.rb(16), b"\xff" * 16, sc.rb(9) + b"\xff" * 7):
+                sc.ctr_set_counter("s128", 0, c)
+                for n in cuts(sc.rng, 5 * 16 + 3, 16):
+                    sc.ctr_encrypt("s128", 0, sc.rb(n), ip=1 if (n and sc.rng.random() < 0.3) else None)
+                    sc.lines[-1] += " viadec=%d" % sc.rng.randrange(2)
+            sc.ctr_set_counter("s128", 0, sc.rb(17), 17)      # invalid IV length for both APIs: rejected, stream continues
+            sc.ctr_encrypt("s128", 0, sc.rb(7))
+        sc.ctr_cleanup("s128", 0)
+    return sc
+
+
+def check_C19(work, tier, seed):
+    out = Outcome()
+    # the design models the Arduino classes share with the C code: incremental tweak
+    # update, Mantis mode switch, and the CTR position machine with batch size 1
+    for mod, cfg, cover in (("MC_Tweak", "MC_Tweak", ("SetTweak",)), ("MC_Mode", "MC_Mode", ("Swap",)),
+                            ("MC_Ctr", "MC_Ctr1", ("DoEncrypt",))):
+        r, ok = run_mc(work, out, mod, cfg, must_cover=cover)
+        if not ok:
+            mc_violation("C19", out, cfg, r)
+    ba = build_arduino(work)
+    sc = gen_c19(seed, tier)
+    lines = conform(work, ba, "C19", seed, sc.text(), out, module="ArduinoTrace")
+    # cross-check: the C library on the very same scenario (minus Arduino-only calls)
+    bc = build(work)
+    ctext = "\n".join(ln.replace(" viadec=0", "").replace(" viadec=1", "")
+                      for ln in sc.text().split("\n") if not ln.startswith("ard_clear")) + "\n"
+    clines = run_drv(bc, ctext)
+    out.events += len(clines)
+    alines = [ln for ln in lines if '"e":"ard_clear"' not in ln]
+    ign = ("be", "psize", "cap", "na", "nf", "nz", "badfree", "lv", "stray", "ctxnull", "vtnull", "fail")
+    h, diff = compare_axis(work, clines, alines, "arduino-vs-c", "C19", seed, out, ignore_keys=ign)
+    if diff:
+        p = save_replay("C19", seed, 800, h + diff[0], "Arduino trace differs from the C library's on the same scenario")
+        out.violations.append(("differs:arduino-vs-c", p, "execution %s: Arduino and C traces differ" % diff[0][0][:80]))
+    note_distinct(out, lines, ("o", "tweak", "ctr", "n", "fam"))
+    out.samples = sample_events(lines, n=5, maxlen=220)
+    return out, dict(
+        level="model_checking",
+        rule="The Arduino classes (all 11 block ciphers, CTR<T> over the five Skinny-128 classes) are compiled "
+             "unmodified for the host (portable C++ path) and driven by the same scenario language as the C library: "
+             "published vectors, random and walking keys, enc/dec of arbitrary blocks, tweak-change histories with "
+             "NULL tweaks and invalid lengths, Mantis8 mode/tweak walks (encryptBlock and decryptBlock entry points), "
+             "CTR with wrap-around/carry IVs in arbitrary splits via encrypt and decrypt, clear(). Their traces use "
+             "the C driver's event vocabulary and are validated by TLC against the SAME contract (SkinnyTrace + the "
+             "Arduino-only clear action): schedule images, remembered tweaks, outputs. Additionally each execution "
+             "is compared with the C library's trace of the same scenario. Design models shared with the C code "
+             "(MC_Tweak, MC_Mode, MC_Ctr with batch size 1 = CTRCommon) are re-run.",
+        assumptions=["AVR inline-assembly path cannot be run on the host",
+                     "the Arduino API is used as its Cipher interface prescribes: setKey then setIV before data "
+                     "(CTRCommon has no documented default counter); key sizes are the class's exact size"])
+
+
+CHECKS.update({"C19": check_C19})
